@@ -1,5 +1,5 @@
 CONSTANTS Q = 17 N = 4 ZETA = 2 D = 2 KK = 1 LL = 1 ETA = 1 TAU = 1 GAMMA1 = 4 GAMMA2 = 4 OMEGA = 1 LAMBDAB = 8
-CONSTANTS KeyStride = 3
+CONSTANTS KeyStride = 9
 SPECIFICATION Spec
 INVARIANT Complete
 CHECK_DEADLOCK FALSE
